@@ -18,6 +18,9 @@ def _ents(sc):
             out[n - 1] = dict(kind='gin', gid=e['gid'])
             out[n] = dict(kind='gout', gid=e['gid'])
             continue
+        if e.get('late'):
+            out[1000 + e['late']] = e       # constructed while the simulation runs: reserved key, takes no id at build time
+            continue
         n += 1
         out[n] = e
         if e['kind'] == 'path':
@@ -293,7 +296,9 @@ def monitor_c06(sc, obs):
             epoch += 1
             accept.clear()
         for d in plain:
-            e = o['devices'][d]
+            e = o['devices'].get(d)
+            if e is None:       # not constructed yet
+                continue
             s = e.get('shut', False)
             if s and not shut_prev.get(d, False):
                 down[d].append([o['now'], None])
@@ -555,7 +560,9 @@ def monitor_c13(sc, obs):
         if prev is not None:
             dt = o['now'] - prev['now']
             for d in procs:
-                pe = prev['devices'][d]
+                pe = prev['devices'].get(d)
+                if pe is None:       # constructed later: its clocks start at its creation
+                    continue
                 if prev['started'] and not pe['shut']:
                     up[d] += dt
                     if pe.get('part'):
@@ -564,7 +571,9 @@ def monitor_c13(sc, obs):
         o['started'] = started
         if started and o['op'][0] in ('step', 'init', 'at', 'now'):
             for d in procs:
-                e = o['devices'][d]
+                e = o['devices'].get(d)
+                if e is None:
+                    continue
                 if e['uptime'] != up[d]:
                     _bad(v, 'C13/uptime', 'op %d %s (t=%d): processor %d reports uptime %d/8, it was operational for %d/8' % (i, o['op'], o['now'], d, e['uptime'], up[d]))
                     return v
@@ -575,11 +584,14 @@ def monitor_c13(sc, obs):
         if o['op'][0] == 'run':
             # several events: re-synchronise the integrals from the reported values
             for d in procs:
-                up[d], use[d] = o['devices'][d]['uptime'], o['devices'][d]['utilization']
+                if d in o['devices']:
+                    up[d], use[d] = o['devices'][d]['uptime'], o['devices'][d]['utilization']
         # accepts / releases while down, lost parts
         if o['op'][0] == 'step' and prev is not None:
             for r in o['data']:
                 d = r[1]
+                if d not in prev['devices']:
+                    continue
                 if d in procs and r[0] == 6 and prev['devices'][d]['shut'] and o['devices'][d]['shut']:
                     _bad(v, 'C13/accepted-while-down', 'op %d: processor %d accepted part %d while shut down' % (i, d, r[4]))
                 if d in procs and r[0] == 8:
@@ -779,7 +791,7 @@ def monitor_c17(sc, obs):
             pos = [arr.index(x) for x in seq]
             if pos != sorted(pos):
                 _bad(v, 'C17/order', 'op %d: batcher %d holds parts %s, they arrived in order %s' % (i, d, seq, [arr[p] for p in sorted(pos)]))
-            if prev is not None and o['op'][0] == 'step':
+            if prev is not None and o['op'][0] == 'step' and d in prev['devices']:
                 pe = prev['devices'][d]
                 for r in o['data']:
                     if r[0] == 6 and r[1] == d and (pe.get('part') or pe.get('out')):
